@@ -12,8 +12,10 @@ capacity of a lazily adjusted limiter (starts at the initial limit; an admission
 above it raises it to the limit; an exit while it is above the limit retires one) and checks, on the
 implementation's own trace: in-flight <= largest limit so far, in-flight <= capacity, nobody waits
 while a permit is free (permits neither lost nor duplicated), admissions in arrival order, limit
-<= 0 refuses, everybody is served once the holders leave, unanswered count = received - finished.
-It knows nothing about the semaphore value, the wake-up chain or `_sem_value`."""
+<= 0 refuses - and nobody is left waiting with no holder to wait for, whatever the limit was in
+between (F23) -, everybody is served once the holders leave, unanswered count = received -
+finished.  It knows nothing about the semaphore value, the wake-up chain or any private attribute
+of `Concurrency`: permits are observed through behaviour (how many entrants get in)."""
 import asyncio
 import itertools
 import json
@@ -122,7 +124,6 @@ class Oracle:
         self.limit = init
         self.maxlimit = init
         self.cap = init
-        self.nonpos_seen = init <= 0
         self.last_admitted = -1
         self.why = None
         self.key = None
@@ -136,8 +137,6 @@ class Oracle:
         if k == 't':
             self.limit = n
             self.maxlimit = max(self.maxlimit, n)
-            if n <= 0:
-                self.nonpos_seen = True
         for e in evs:
             if e[0] in 'ER':
                 i = int(e[1:])
@@ -151,16 +150,16 @@ class Oracle:
                 self.cap = max(self.cap, self.limit)
             if e[0] == 'R' and self.limit >= 1:
                 self.fail('c13:refused-at-positive-limit', f'{e} although the limit is {self.limit}')
-        if k in 'xk' and 'B' not in evs:
-            # a lowered limit retires one excess permit per exit (decided before anybody is woken)
-            pass
-        if target_seen != self.limit:
+        # the text fixes what max_concurrent reads only for limits of at least 1 ("zero or less
+        # refuses"): a limiter that stores set_target(-1) as 0 is fine
+        if (target_seen != self.limit) if self.limit >= 1 else (target_seen > 0):
             self.fail('c13:max-concurrent', f'max_concurrent reads {target_seen}, limit in force is {self.limit}')
         if peak > self.maxlimit:
             self.fail('c13:exceeds-max-limit', f'{peak} handlers in flight, largest limit so far {self.maxlimit}')
 
     # capacity bookkeeping has to see the exit before the admissions it causes
     def pre_exit(self):
+        # a lowered limit retires one excess permit per exit
         if self.cap > self.limit:
             self.cap -= 1
 
@@ -168,11 +167,18 @@ class Oracle:
         if peak > self.cap:
             self.fail('c13:exceeds-capacity',
                       f'{peak} in flight but capacity after reductions/raises is {self.cap} (limit {self.limit})')
-        if not self.nonpos_seen and waiting and len(holders) < self.cap:
+        if waiting and len(holders) < self.cap:
             self.fail('c13:permit-lost',
-                      f'{len(waiting)} waiting although only {len(holders)} of {self.cap} permits are in use')
-        if not self.nonpos_seen and waiting and not holders:
-            self.fail('c13:starved', 'tasks wait although nobody holds a permit')
+                      f'{len(waiting)} waiting although only {len(holders)} of {self.cap} permits are in use '
+                      f'(limit {self.limit})')
+        if waiting and not holders:
+            if self.limit <= 0:
+                self.fail('c13:left-waiting-at-nonpositive-limit',
+                          f'tasks {list(waiting)} are left waiting although nobody holds a permit and the limit '
+                          f'is {self.limit}: they must be refused (ExcessiveSessionCostError), not parked')
+            else:
+                self.fail('c13:starved', f'tasks {list(waiting)} wait although nobody holds a permit '
+                                         f'(limit {self.limit})')
 
 
 def run_limiter_case(env, init, ops, tail=True):
@@ -209,8 +215,9 @@ def run_limiter_case(env, init, ops, tail=True):
         while rig.hold and guard < 200:
             do(f'x{rig.hold[0]}')
             guard += 1
-        if not orc.nonpos_seen and rig.waiting:
-            orc.fail('c13:not-served', f'tasks {rig.waiting} never admitted although every holder left')
+        if rig.waiting:
+            orc.fail('c13:not-served', f'tasks {rig.waiting} never admitted although every holder left '
+                                       f'and the limit is {rig.c.max_concurrent}')
     rig.close()
     return done, recs, orc, state
 
@@ -226,7 +233,7 @@ def applicable(state, nid):
         ops.append(f'c{waiting[0]}')
         if len(waiting) > 1:
             ops.append(f'c{waiting[-1]}')
-    ops += [f't{n}' for n in (1, 2, 3) if n != target]
+    ops += [f't{n}' for n in (0, 1, 2, 3) if n != target]
     return ops
 
 
